@@ -1,4 +1,4 @@
-import MpVerif.C08.LemmasGen
+import MpVerif.C08.LemmasR5
 /-!
 # C08 — property theorems
 
@@ -147,6 +147,24 @@ theorem C08_colsizes_follow (m : MatrixModel) (j : Nat) (hj : j < m.n) (hl : vpe
     (feedColumnSizes m).getD (vperm m j) 0 = m.A.index.count j := by
   unfold feedColumnSizes colSize
   rw [getD_map_range _ _ _ hl, vpermInv_vperm m hj]
+
+/-- the NL `k` segment omits the LAST position; its column size is nevertheless determined by what is written:
+the sizes at all positions sum to the number of Jacobian nonzeros of the header (`nzc`), so the last column has
+`nzc − Σ written sizes` entries — and that is the caller's count for the column placed last -/
+theorem C08_colsizes_last (m : MatrixModel) (ha : ∀ c ∈ m.A.index, c < m.n) (hn : 0 < m.n) (text : Bool) (flags : Nat) :
+    (feedColumnSizes m).sum + m.A.index.count (vpermInv m (m.n - 1)) = (header m text flags).nzc ∧
+    m.A.index.count (vpermInv m (m.n - 1)) = (header m text flags).nzc - (feedColumnSizes m).sum := by
+  have h1 := sum_over_positions m (fun j => m.A.index.count j)
+  rw [sum_count_range m.A.index m.n ha] at h1
+  have hsplit : List.range m.n = List.range (m.n - 1) ++ [m.n - 1] := by
+    have : m.n = (m.n - 1) + 1 := by omega
+    rw [this, List.range_succ]; simp
+  rw [hsplit, List.map_append, List.sum_append] at h1
+  simp only [List.map_cons, List.map_nil, List.sum_cons, List.sum_nil, Nat.add_zero] at h1
+  have hf : (feedColumnSizes m).sum = ((List.range (m.n - 1)).map (fun i => m.A.index.count (vpermInv m i))).sum := rfl
+  have hz : (header m text flags).nzc = m.A.index.length := rfl
+  rw [hf, hz]
+  omega
 
 /-! ## 4. Objective -/
 
